@@ -72,6 +72,10 @@ class Checker:
     def bad(self, rule, f, what, construct, node=None, detail=None):
         """a violated obligation. ``construct`` identifies the offending code independent of
         position (normalised text of the expression / name of the instance)."""
+        fq = getattr(f, "qualname", f if isinstance(f, str) else None)
+        for o in self.obs:
+            if o.status == "violated" and o.rule == rule and o.func == fq and norm(o.construct) == norm(construct):
+                return
         self.obs.append(Ob(rule, self._site(f, node), what, "violated", detail, True, construct,
                            getattr(f, "qualname", f if isinstance(f, str) else None)))
         if hasattr(f, "qualname"):
@@ -122,7 +126,12 @@ class Checker:
         for o, ent in kf:
             out.append("KNOWN-FINDING: property=%s %s [%s at %s]" % (prop, ent.get("what", o.what), o.rule, o.site))
         replay_paths = []
+        shown = {}
         for o in new:
+            g = (o.rule, o.what)
+            shown[g] = shown.get(g, 0) + 1
+            if shown[g] > 2:
+                continue
             rp = write_replay(prop, o)
             replay_paths.append(rp)
             out.append("VIOLATION property=%s replay=%s" % (prop, rp))
@@ -132,6 +141,9 @@ class Checker:
                 out.append("  found  %s" % o.construct)
             if o.detail:
                 out.append("  detail %s" % (o.detail if isinstance(o.detail, str) else json.dumps(o.detail, default=str)))
+        for g, n in shown.items():
+            if n > 2:
+                out.append("  (+%d more instances of %s: %s)" % (n - 2, g[0], g[1]))
         for o in inc:
             out.append("ANALYSIS-INCONCLUSIVE property=%s rule=%s site=%s : %s %s" % (prop, o.rule, o.site, o.what, o.detail or ""))
         for n in self.notes:
